@@ -422,6 +422,46 @@ func c10Upload(c *Ctx) {
 				}
 			}
 			if fileVal == nil {
+				// `upload := part.upload(reader, size)`: a helper of the package builds the Upload; its File is one of the helper's parameters
+				cands := an.Defs(up)
+				if a := loadAddr(up); a != nil {
+					for _, st := range an.CellStores(a) {
+						cands = append(cands, an.Defs(st.Val)...)
+					}
+				}
+				for _, d := range cands {
+					hc, ok := d.(*ssa.Call)
+					if !ok || hc.Block() != call.Block() {
+						continue
+					}
+					h := hc.Call.StaticCallee()
+					if h == nil || h.Pkg == nil || h.Pkg.Pkg.Path() != pkgTransport || len(h.Blocks) == 0 {
+						continue
+					}
+					for _, hb := range h.Blocks {
+						for _, hin := range hb.Instrs {
+							st, ok := hin.(*ssa.Store)
+							if !ok {
+								continue
+							}
+							fa, ok := st.Addr.(*ssa.FieldAddr)
+							if !ok || fieldNameOf(fa) != "File" {
+								continue
+							}
+							v := an.Strip(st.Val)
+							if mi, ok := v.(*ssa.MakeInterface); ok {
+								v = an.Strip(mi.X)
+							}
+							for k, prm := range h.Params {
+								if v == ssa.Value(prm) && k < len(hc.Call.Args) {
+									fileVal, where = hc.Call.Args[k], hc
+								}
+							}
+						}
+					}
+				}
+			}
+			if fileVal == nil {
 				c.R.Unknown(key, c.ipos(call), "could not find the assignment of Upload.File in the loop body")
 				continue
 			}
